@@ -49,6 +49,8 @@ def run(tier, out):
     try:
         from checks import k_mapqueue
         k_mapqueue.run_k(tier, out, os.path.join(wd, "k"))
+        from checks import k_lanes
+        k_lanes.run_k(tier, out, os.path.join(wd, "klanes"), prop="C02")
     except ImportError:
         out.notes.append("component-level MapQueue check not present")
     out.add(traces_validated_against_impl=tot_cases, trace_events_validated=tot_events,
@@ -60,6 +62,9 @@ def run(tier, out):
 
 def replay(path, out):
     obj = json.load(open(path))["replay"]
+    if obj.get("component") == "lanes":
+        from checks import k_lanes
+        return k_lanes.replay(path, out)
     if str(obj.get("component", "")).startswith("WriteTask"):
         from checks import k_writetask
         return k_writetask.replay(path, out)
